@@ -8,9 +8,9 @@ open Parsley Driver
     (prefixes and multi-edit mutations of the repository's sample PDFs are produced by the native
     generator of harness/src/bin/c01.rs, which can read them, as explicit `doc` lines too).
     The implementation side runs the REAL `pdf_printer` binary on the file in a subprocess and
-    reports `terminates-normally completed` (exit 0), `terminates-normally rejected` (exit 1) or what
-    else happened (`abnormal` + panic exit code, signal, timeout).
-    model : `Pipeline.run` (Model/Pipeline.lean) on the bytes; the first two words must agree with the binary.
+    reports `completed` (exit 0), `rejected` (exit 1) or what else happened (`abnormal` + panic exit code,
+    signal, timeout).
+    model : `Pipeline.run` (Model/Pipeline.lean) on the bytes; the first word must agree with the binary.
     judge : the statement itself - the only acceptable outcomes are the first two. -/
 
 def bs (s : String) : Bytes := s.toUTF8.toList
@@ -70,7 +70,7 @@ def baseDoc (contents : Bytes) (streamExtra : Bytes) (lenField : Option Bytes) (
               ++ pageExtra ++ bs " >>"),
       streamObj 4 streamExtra (lenField.getD (natStr contents.length)) contents,
       obj 5 (bs "<< /Type /Font /Subtype /Type1 /BaseFont /Helvetica /FontDescriptor 6 0 R >>"),
-      obj 6 (bs "<< /Type /FontDescriptor /FontName /Helvetica /FontFile 7 0 R >>"),
+      obj 6 (bs "<< /Type /FontDescriptor /FontName /Helvetica /Flags 32 /FontFile 7 0 R >>"),
       streamObj 7 [] (bs "3") (bs "abc")] ++ more)
     trailerExtra (bs "1 0 R")
 
@@ -214,6 +214,26 @@ def predictorParms : List String :=
    "/Predictor 10 /Columns 1 /BitsPerComponent 0", "/Predictor -12", "/Predictor 99999999999999999999",
    "/Predictor 12 /Columns 5 /EarlyChange 7", "/Predictor (x)", "/Columns [1]"]
 
+/-- a flat page tree with one page per entry: (content bytes, extra stream-dictionary text, use the
+    non-embedded font, contents given as an array that repeats the stream) -/
+def pagesDoc (pages : List (Bytes × Bytes × Bool × Bool)) (inner : Bool) : Bytes :=
+  let n := pages.length
+  let kidIds := (List.range n).map fun i => 5 + 2 * i + (if inner then 1 else 0)
+  let kidsTxt := (kidIds.map fun k => natStr k ++ bs " 0 R ").flatten
+  let parent : Nat := if inner then 5 else 2
+  let pageObjs := (pages.zip kidIds).flatMap fun ((c, extra, bad, arr), k) =>
+    [obj k (bs "<< /Type /Page /Parent " ++ natStr parent ++ bs " 0 R /MediaBox [0 0 10 10] /Contents " ++
+        (if arr then bs "[" ++ natStr (k + 1) ++ bs " 0 R " ++ natStr (k + 1) ++ bs " 0 R]" else natStr (k + 1) ++ bs " 0 R") ++
+        bs " /Resources << /Font << /F1 " ++ (if bad then bs "4" else bs "3") ++ bs " 0 R >> >> >>"),
+     streamObj (k + 1) extra (natStr c.length) c]
+  assemble hdr
+    ([obj 1 (bs "<< /Type /Catalog /Pages 2 0 R >>"),
+      obj 2 (bs "<< /Type /Pages /Count " ++ natStr n ++ bs " /Kids [" ++ (if inner then bs "5 0 R" else kidsTxt) ++ bs "] >>"),
+      obj 3 (bs "<< /Type /Font /Subtype /Type1 /BaseFont /Helvetica >>"),
+      obj 4 (bs "<< /Type /Font /Subtype /Type1 /BaseFont /X /FontDescriptor << /Type /FontDescriptor /FontName /X /Flags 32 >> >>")] ++
+     (if inner then [obj 5 (bs "<< /Type /Pages /Parent 2 0 R /Count " ++ natStr n ++ bs " /Kids [" ++ kidsTxt ++ bs "] >>")] else []) ++
+     pageObjs) [] (bs "1 0 R")
+
 def contentFamily : List String :=
   ["", " ", "% only a comment", "BX ) EX", "BX > EX", "BX ] EX", "BX { EX", "BX } EX", "BX foo EX", "BX foo", "BX BX foo EX bar EX",
    "BX EX foo", "EX", "BX EX EX", "BX (a) ) EX", "BX << EX", "BX [ EX", "BX <41 EX", "BX /#00 EX", "q BX ) EX Q",
@@ -303,6 +323,19 @@ def gen (seed n : Nat) (tier : String) (emit : String → IO Unit) : IO Unit := 
   doc (baseDoc (bs "BT (a) Tj") [] none (bs "[3 0 R]") (bs "/Contents [4 0 R 8 0 R]") [] []
         [streamObj 8 [] (bs "5") (bs " ET q")])
   doc (baseDoc (zlibStored (bs "BX ) EX")) (bs "/Filter /FlateDecode") none (bs "[3 0 R]") [] [] [] [])
+  -- several pages: a page skipped because a content stream does not decode or is not a stream, followed by a
+  -- page that is fine / has a non-embedded font / has ill-formed content; contents arrays; an inner node
+  let good : Bytes × Bytes × Bool × Bool := (textContent, [], false, false)
+  let undec : Bytes × Bytes × Bool × Bool := (bs "zz", bs "/Filter /FlateDecode", false, false)
+  let unk : Bytes × Bytes × Bool × Bool := (bs "BT ET", bs "/Filter /LZWDecode", false, false)
+  let illc : Bytes × Bytes × Bool × Bool := (bs "BT ) ET", [], false, false)
+  let nofont : Bytes × Bytes × Bool × Bool := (textContent, [], true, false)
+  let arrc : Bytes × Bytes × Bool × Bool := (bs "BT (a) Tj ET", [], false, true)
+  let halfarr : Bytes × Bytes × Bool × Bool := (bs "BT (a) Tj", [], false, true)
+  for inner in [false, true] do
+    for ps in [[good, good], [good, good, good], [undec, good], [undec, illc], [undec, nofont], [good, illc], [good, nofont],
+               [unk, unk], [arrc, good], [halfarr, good], [good, arrc, undec, illc], [nofont, illc], [illc, nofont], []] do
+      doc (pagesDoc ps inner)
   -- fonts: embedded / not embedded / standard / descriptor variants
   for f in fontFamily do
     doc (assemble hdr
@@ -319,7 +352,8 @@ def gen (seed n : Nat) (tier : String) (emit : String → IO Unit) : IO Unit := 
   doc (baseDoc textContent [] none (bs "[3 0 R]") [] [] (bs "/PageLabels 42") [])
   doc (baseDoc textContent [] none (bs "[3 0 R]") [] [] (bs "/Names << /Dests (foo) >>") [])
   -- random part: number mutations, truncations, byte edits of generated documents; byte edits of the samples
-  let bases : List Bytes := [plain, xrefStreamDoc none [] [] none none false, xrefStreamDoc none [] [] none none true,
+  let bases : List Bytes := [plain, pagesDoc [(textContent, [], false, false), (bs "zz", bs "/Filter /FlateDecode", false, false),
+      (bs "BT (a) Tj ET", [], false, true)] true, xrefStreamDoc none [] [] none none false, xrefStreamDoc none [] [] none none true,
     updatedDoc none none,
     baseDoc (zlibStored ([2, 9, 9, 9, 9] ++ textContent)) (bs "/Filter /FlateDecode /DecodeParms << /Predictor 12 /Columns 4 >>")
       none (bs "[3 0 R]") [] [] [] []]
@@ -353,23 +387,68 @@ def gen (seed n : Nat) (tier : String) (emit : String → IO Unit) : IO Unit := 
 
 /-- the end-to-end model (Model/Pipeline.lean) on the bytes of the case -/
 def showOutcome : Pipeline.Outcome → String
-  | .completed => "terminates-normally completed"
-  | .rejected => "terminates-normally rejected"
+  | .completed => "completed"
+  | .rejected => "rejected"
   | .panic s => "abnormal panic model-site=" ++ s.replace " " "_"
+
+/-- INFORMATIONAL (second word of the model's line, never compared): the stage at which the model's run ended,
+    recomputed from the stage functions -/
+def stageOf (b : Bytes) : String :=
+  match Pipeline.parseDataE b with
+  | .reject => "stage=load"
+  | .panic _ => "stage=load"
+  | .ok l =>
+    match ObjStm.defsGet l.root l.defs with
+    | none => "stage=root"
+    | some rootObj =>
+      match Pipeline.dumpRoot l.enc l.defs rootObj with
+      | .ok _ =>
+        match Pipeline.typeCheck (Pipeline.toGraph l.defs) (Pipeline.toTC rootObj) with
+        | .accept =>
+          match PageDom.toPageDom l.defs rootObj with
+          | .ok (_, dom) =>
+            let leaves := dom.pages.filter fun p => match p.2 with | .leaf _ => true | _ => false
+            s!"stage=pages:{leaves.length}" ++ (if l.enc then ",encrypted" else "")
+          | _ => "stage=dom"
+        | _ => "stage=typecheck"
+      | _ => "stage=dump"
+
+/-- longest run of consecutive repetitions of `pat` in `s` (one left-to-right pass) -/
+def maxRepeat (pat : Bytes) (s : Bytes) : Nat :=
+  let p0 := pat.headD 0
+  let n := pat.length
+  (s.foldl (fun (st : Nat × Nat × Nat) b =>
+    let (pos, reps, best) := st
+    if pat[pos]? == some b then
+      if pos + 1 == n then (0, reps + 1, Nat.max best (reps + 1)) else (pos + 1, reps, best)
+    else if b == p0 then (if n == 1 then (0, 1, Nat.max best 1) else (1, 0, best))
+    else (0, 0, best)) (0, 0, 0)).2.2
+
+/-- SIZE CAP (labelled closed form, thorough tier only).  The byte-list model pays O(offset) for every token
+    it reads, which makes files above ~1.5 MB take longer than the runner's per-case time limit.  The only such
+    files the generator emits are the 10^6-deep nesting documents; for a file above the cap that contains a run
+    of more than 50 nested array or dictionary openers the driver answers `rejected` without running the model
+    (the object parser and the content-stream parser reject nesting beyond max_depth = 50: C16.at_bound_rejects;
+    the same documents at 10^5 levels ARE run through the model in both tiers).  Any other file is run through
+    the model whatever its size. -/
+def sizeCap : Nat := 1500000
 
 def model (line : String) : String :=
   match words line with
   | ["doc", hex] =>
     match bytesOfHex hex with
-    | some b => showOutcome (Pipeline.run b)
+    | some b =>
+      if hex.length > 2 * sizeCap && (maxRepeat [91] b > 50 || maxRepeat (bs "<</K ") b > 50) then
+        "rejected closed-form:nesting>50,size>cap"
+      else showOutcome (Pipeline.run b) ++ " " ++ stageOf b
     | none => "bad-case"
   | _ => "bad-case"
 
 def judge (_case impl : String) : String :=
   let w := (words impl)
   match w with
-  | ["terminates-normally", _] => "ok"
-  | ["terminates-normally"] => "ok"
+  | "completed" :: _ => "ok"
+  | "rejected" :: _ => "ok"
   | "abnormal" :: k :: _ => s!"bad {k} {impl}"
   | _ => if impl.startsWith "crash" || impl == "hang" then s!"bad harness-{impl}" else s!"bad malformed {impl}"
 
